@@ -13,7 +13,8 @@ def sig_of(r):
 
 def run(tier):
     rnd = random.Random(core.seed())
-    recs = K.exact_rhs_cases(rnd, tier) + K.table_tok_cases(rnd, tier) + K.stencil_cases(rnd, tier) + K.multi_component_cases(rnd, tier)
+    recs = (K.exact_rhs_cases(rnd, tier) + K.table_tok_cases(rnd, tier) + K.stencil_cases(rnd, tier) + K.multi_component_cases(rnd, tier)
+            + K.direct_call_cases(rnd, tier))
     from . import fvm2d_cases as K2
     recs2 = K2.stencil2d_cases(rnd, tier) + K2.exact2d_cases(rnd, tier)
     rc = run_check(
